@@ -1330,7 +1330,8 @@ func randomKey(n int) string {
 
 func (s *Server) reset() {
 	s.aofsz = 0
-	s.cols.Clear()
+	// clears the collections and also the hooks, channels and their indexes
+	s.cmdFLUSHDB(&Message{Args: []string{"flushdb"}})
 }
 
 func (s *Server) command(msg *Message, client *Client) (
